@@ -799,7 +799,10 @@ func (s *session) drainMessageIn() {
 			if !ok {
 				return
 			}
-			s.Incoming(s, fixInc)
+			// The logout notification has been given and the outbound side is closed: handing
+			// these to the old state would deliver them outside the logon and queue replies for a
+			// dead connection. They keep their sequence numbers and are recovered on the next logon.
+			s.log.OnEventf("Discarding message received after disconnect: %s", fixInc.bytes.String())
 		default:
 			return
 		}
